@@ -141,8 +141,7 @@ def _mk_fetch(S, n, nreq):
             for j in reversed(range(nreq)):
                 e = z3.If(req[j].e == tid.e, z3.IntVal(j), e)
             return e
-        for a, b in zip(got, got[1:]):
-            vm.check(first_match(fld(P, a, 'Track', 'track_id')) < first_match(fld(P, b, 'Track', 'track_id')), "results follow request order")
+        # (the ORDER of the returned tracks is not part of the property and is not checked)
         _invariant(vm, st)
     return q
 
@@ -616,7 +615,7 @@ fn replay() {
             assert_eq!(s.get_store(m0.0 as usize).get(&m0.0).unwrap().get_observations(3).map(|o| o.len()), Some(1), "the observation was added");
             s.add(m0.0, 3, None, None, Some(Upd(m0.1))).unwrap();
         }
-        // ---- fetch_tracks: removes and returns exactly the requested existing tracks, in request order
+        // ---- fetch_tracks: removes and returns exactly the requested existing tracks (order not specified)
         let probes: Vec<u64> = ids.iter().cloned().chain([%(missing)du64]).collect();
         for x in &probes { for y in &probes {
             let mut s2: S = TrackStore::new(M, TA::default(), NoopNotifier, shards);
@@ -624,7 +623,10 @@ fn replay() {
             let got: Vec<u64> = s2.fetch_tracks(&[*x, *y]).iter().map(|t| t.get_track_id()).collect();
             let mut exp: Vec<u64> = vec![];
             for q in [*x, *y] { if model.iter().any(|m| m.0 == q) && !exp.contains(&q) { exp.push(q); } }
-            assert_eq!(got, exp, "fetch_tracks returns exactly the requested existing tracks in request order");
+            let (mut got, mut exp) = (got, exp);
+            got.sort();
+            exp.sort();
+            assert_eq!(got, exp, "fetch_tracks returns exactly the requested existing tracks, each once");
             let mut left: Vec<u64> = contents(&s2, shards).iter().map(|e| e.1).collect();
             left.sort();
             let mut exp_left: Vec<u64> = model.iter().map(|m| m.0).filter(|i| !exp.contains(i)).collect();
@@ -746,7 +748,7 @@ for S, n, tier in [(1, 2, 'quick'), (2, 2, 'quick'), (3, 2, 'thorough'), (2, 3, 
     MIR += [
         MQ("c09_add_track_%d_%d" % (S, n), tier, _mk_add_track(S, n), "add_track inserts a fresh id into shard id%shards, rejects duplicates without change",
            "%d shards, %d stored tracks + 1 new (symbolic ids, possibly equal)" % (S, n), [TS + "add_track", TS + "get_store"], replay=_replay_map_ops),
-        MQ("c09_fetch_%d_%d" % (S, n), tier, _mk_fetch(S, n, 2), "fetch_tracks removes and returns exactly the requested existing tracks in request order",
+        MQ("c09_fetch_%d_%d" % (S, n), tier, _mk_fetch(S, n, 2), "fetch_tracks removes and returns exactly the requested existing tracks, each once",
            "%d shards, %d stored tracks, 2 requested symbolic ids (duplicates / missing allowed)" % (S, n), [TS + "fetch_tracks"], replay=_replay_map_ops),
         MQ("c09_stats_clear_%d_%d" % (S, n), tier, _mk_stats_clear(S, n), "shard_stats = per-shard sizes summing to the number of tracks; clear empties all",
            "%d shards, %d stored tracks" % (S, n), [TS + "shard_stats", TS + "clear"], replay=_replay_map_ops),
